@@ -200,6 +200,7 @@ func runCheck(opts checkOpts) (int, map[string]any) {
 	if err != nil {
 		return fail("known_findings.json: " + err.Error())
 	}
+	en.activeProp = opts.prop
 	keys := en.functionsFor(opts.prop)
 	if len(keys) == 0 {
 		return fail("no function under contract serves " + opts.prop)
